@@ -18,6 +18,7 @@
 import ClarabelProofs.Lemmas.SolverNSLoop
 import ClarabelProofs.Lemmas.SolverNSExample
 import ClarabelProofs.Lemmas.SolverNSNoPanicExample
+import ClarabelProofs.Lemmas.SolverNSWrightRealSolve
 
 namespace Clarabel.C04
 open Clarabel Clarabel.SolverNS
@@ -309,5 +310,274 @@ example : ¬ SolverNS.userHasExp ([.nonneg 1, .pow 2, .genpow #[1] 1] : List (Co
   rcases h with h | h | h <;> cases h
 
 end NSExamples
+
+/-! ## Over ℝ: the `_wright_omega` site (`"argument not in supported range"`)
+
+  `ns_no_panic` leaves two numerical-domain sites.  Over ℝ (`FloatLike ℝ`: `exp`/`log` are `Real.exp`/
+  `Real.log`) the first needs no floating-point reasoning: at every point `is_primal_feasible` accepts the
+  argument handed to `_wright_omega` is `> 1` (`C14.exp_wright_argument_pos`).
+
+  CALL-SITE ANALYSIS (code = model).  `_wright_omega` is reached in `solve()` from
+    (a) `update_scaling → update_Hs → use_primal_dual_scaling → gradient_primal(s)` — the current iterate
+        `s`, `PrimalDual` strategy only (`SolverNS.scaleCones → updateScaling → updateScaling1 (.exp _)`);
+    (b) `get_step_length → backtrack_step_to_barrier(α) → variables.barrier → cones.compute_barrier →
+        barrier_primal(s + α·ds)` — combined step, `Dual` strategy, nonsymmetric problem only
+        (`SolverNS.getStepLength → backtrackStepToBarrier → barrier → computeBarrier → computeBarrier1`).
+  NEITHER site evaluates a point that `is_primal_feasible` was called on: `step_length` accepts
+  `s + αs·ds` for this cone, but the `α` that reaches (b) is `min` over all cones, times
+  `max_step_fraction`, times `stepᵏ` — shorter (or `0`, when a search gave up) —, and (a) sees the iterate
+  `s + α·ds` of the previous pass (the constants of `unit_initialization` on the first).  Both are
+  nevertheless safe over ℝ because the open exponential cone is convex; what is proved below is the
+  cone-level induction step of that invariant, the start, and the two call sites on the solver's cone
+  objects; then — with Round 7's interior invariant (`InteriorN`) threaded through `solve()` next to the
+  shape invariant — the solve-level statements `ns_wright_sites_safe_on_reached`,
+  `ns_wright_site_unreachable_real` and `ns_no_panic_real` at the end of the section.
+-/
+section nsreal
+open Clarabel.Nonsym
+
+/-- [R] `C04.ns_wright_site_unreachable_real_partial` (cone-level induction step; the solve-level
+statement is `ns_wright_site_unreachable_real` below).  Over ℝ, from an iterate `s` of an exponential cone that
+`is_primal_feasible` accepts, after `step_length` returned `(αz, αs)`, for EVERY step `t ∈ [0, αs]`
+(the solver's final `α` is one of them):
+* the new iterate `s + t·ds` is accepted again;
+* `compute_barrier(z, s, dz, ds, t)` returns — call site (b) cannot hit the range panic;
+* `update_scaling(s + t·ds, z', μ, strategy)` returns for all `z'`, `μ`, strategy — call site (a) of the
+  next pass cannot hit it. -/
+theorem ns_wright_site_unreachable_real_partial (dz ds z s : V3 ℝ) (step amin amax : ℝ) (fuel : Nat)
+    (az as : ℝ) (h : Exp.stepLength dz ds z s step amin amax fuel = .ok (az, as))
+    (hs : Exp.isPrimalFeasible s.1 s.2.1 s.2.2 = true) (t : ℝ) (ht0 : 0 ≤ t) (ht : t ≤ as) :
+    Exp.isPrimalFeasible (SolverNS.segPt s ds t).1 (SolverNS.segPt s ds t).2.1
+        (SolverNS.segPt s ds t).2.2 = true ∧
+    (∃ b, Exp.computeBarrier z s dz ds t = .ok b) ∧
+    (∀ (z' : V3 ℝ) (mu : ℝ) (dual : Bool),
+      ∃ K, Exp.updateScaling (SolverNS.segPt s ds t) z' mu dual = .ok K) :=
+  SolverNS.exp_step_keeps_wright_safe dz ds z s step amin amax fuel az as h hs t ht0 ht
+
+/-- non-vacuity: from `z = s = (−1, 1, 1)` with a zero direction `step_length` returns `(1, 1)`, and
+`s` passes `is_primal_feasible` -/
+example : Exp.stepLength (0, 0, 0) (0, 0, 0) (-1, 1, 1) (-1, 1, 1) (4 / 5 : ℝ) (1 / 10000) 1 1
+      = .ok (1, 1) ∧ Exp.isPrimalFeasible (-1 : ℝ) 1 1 = true := by
+  constructor
+  · simp [Exp.stepLength, Nonsym.backtrackSearch, Exp.inDual, Exp.inPrimal, Vec.waxpby, v3toArray,
+      v3ofArray?, Exp.isDualFeasible, Exp.isPrimalFeasible, logsafe, bind, Except.bind, pure,
+      Except.pure]
+    norm_num
+  · exact (C14.exp_isPrimalFeasible_iff (-1) 1 1).mpr ⟨by norm_num, by norm_num, by
+      rw [one_mul]
+      calc Real.exp (-1 / 1) < Real.exp 0 := Real.exp_lt_exp.mpr (by norm_num)
+        _ = 1 := Real.exp_zero⟩
+
+/-- [R] `C04.ns_wright_start_real`: the first pass — the exponential cone's `unit_initialization`
+constants pass `is_primal_feasible`, so `update_scaling` on the starting point returns for every `z`,
+`μ` and strategy. -/
+theorem ns_wright_start_real (z : V3 ℝ) (mu : ℝ) (dual : Bool) :
+    Exp.isPrimalFeasible (Exp.unitInitialization (α := ℝ)).1 (Exp.unitInitialization (α := ℝ)).2.1
+      (Exp.unitInitialization (α := ℝ)).2.2 = true ∧
+    ∃ K, Exp.updateScaling (Exp.unitInitialization (α := ℝ)) z mu dual = .ok K :=
+  ⟨SolverNS.exp_unit_start_feasible,
+    Exp.updateScaling_ok_of_feasible _ z mu dual (Or.inr SolverNS.exp_unit_start_feasible)⟩
+
+/-- [R] `C04.ns_wright_call_sites_real`: the two call sites on the SOLVER's cone objects (`ConeSt.exp`,
+3-element slices).  `update_scaling` returns when the strategy is `Dual` or the `s` slice passes
+`is_primal_feasible`; `compute_barrier` returns when the candidate `s + α·ds` passes it; conversely a
+panic of either (at any site) means the evaluated point is one `is_primal_feasible` rejects. -/
+theorem ns_wright_call_sites_real (K : Exp.State ℝ) {z s dz ds : Array ℝ} {zv sv dzv dsv : V3 ℝ}
+    (hz : v3ofArray? z = some zv) (hs : v3ofArray? s = some sv) (hdz : v3ofArray? dz = some dzv)
+    (hds : v3ofArray? ds = some dsv) (mu a : ℝ) (dual : Bool) :
+    ((dual = true ∨ Exp.isPrimalFeasible sv.1 sv.2.1 sv.2.2 = true) →
+      ∃ K', SolverNS.updateScaling1 (.exp K) s z mu dual = .ok (true, .exp K')) ∧
+    (Exp.isPrimalFeasible (SolverNS.segPt sv dsv a).1 (SolverNS.segPt sv dsv a).2.1
+        (SolverNS.segPt sv dsv a).2.2 = true →
+      ∃ b, SolverNS.computeBarrier1 (.exp K) z s dz ds a = .ok b) ∧
+    (∀ site, SolverNS.updateScaling1 (.exp K) s z mu dual = .error (.panic site) →
+      dual = false ∧ Exp.isPrimalFeasible sv.1 sv.2.1 sv.2.2 = false) ∧
+    (∀ site, SolverNS.computeBarrier1 (.exp K) z s dz ds a = .error (.panic site) →
+      Exp.isPrimalFeasible (SolverNS.segPt sv dsv a).1 (SolverNS.segPt sv dsv a).2.1
+        (SolverNS.segPt sv dsv a).2.2 = false) :=
+  ⟨SolverNS.updateScaling1_exp_ok_real K hs hz mu dual,
+    SolverNS.computeBarrier1_exp_ok_real K hz hs hdz hds a,
+    fun site => (SolverNS.exp_cone_wright_panic_rejected K hz hs hdz hds mu a dual site).1,
+    fun site => (SolverNS.exp_cone_wright_panic_rejected K hz hs hdz hds mu a dual site).2⟩
+
+/-- non-vacuity: 3-element slices parse -/
+example : v3ofArray? (#[-1, 1, 1] : Array ℝ) = some (-1, 1, 1) := rfl
+
+/-- [R] `C04.ns_no_panic_real_partial`: `ns_no_panic_by_cone_kind` over ℝ, where `FmaxOK ℝ` is a
+theorem: for a solver object built by `new` on well-formed input a panic of `solve()` is the
+`_wright_omega` range check (and then the user's list has an exponential cone) or the
+`backtrack_search` fuel (and then it has a nonsymmetric cone); never `.err`.  (`_partial`: no hypothesis on the
+settings or the cone parameters; with them the first alternative is excluded: `ns_no_panic_real`.) -/
+theorem ns_no_panic_real_partial {P : Csc ℝ} {q : Array ℝ} {A : Csc ℝ} {b : Array ℝ}
+    {cones : List (ConeT ℝ)} {st : SolverNS.Settings ℝ} {perm : Array Nat}
+    (hin : SolverNS.InputOKN P q A b cones) (hn : 0 < P.n)
+    (hperm : SolverNS.PermForN P q A b cones st perm) (hpiv : Clarabel.Solver.PivotOK st.lin)
+    {S : SolverNS.Solver ℝ} (h : SolverNS.Solver.new P q A b cones st perm = .ok S) :
+    (∀ site, S.solve st = .error (.panic site) →
+      (site = "argument not in supported range" ∧ SolverNS.userHasExp cones)
+        ∨ (site = "backtrack_search: fuel" ∧ SolverNS.userHasNonsym cones))
+    ∧ (∀ kind, S.solve st ≠ .error (.err kind))
+    ∧ (∀ r, S.solve st = .ok r → SolverNS.SolverInvN r.S) :=
+  ⟨fun _ hp => ns_no_panic_by_cone_kind hin hn hperm hpiv SolverNS.fmaxOK_real_ns h hp,
+    (ns_solve_panics_only_numerically hin hn hperm hpiv SolverNS.fmaxOK_real_ns h).2.1,
+    (ns_solve_panics_only_numerically hin hn hperm hpiv SolverNS.fmaxOK_real_ns h).2.2⟩
+
+/-- [R] `C04.ns_wright_composite_real`: the two call sites on the COMPOSITE cone and up to
+`backtrack_step_to_barrier`, over ℝ, with NO exception left (no panic at any site, no `.err`).  On
+consistently sized cone objects (`ConesFull`, what `new` builds and every pass keeps) and vectors of
+the problem's dimension:
+(a) `CompositeCone::update_scaling(s, z, μ, strategy)` (= `scale_cones`) returns when the strategy is
+    `Dual` or the `s` slice of every exponential constituent passes `is_primal_feasible`;
+(b) `CompositeCone::compute_barrier(z, s, dz, ds, α)` returns when the candidate `s + α·ds` of every
+    exponential constituent passes it;
+(b′) `backtrack_step_to_barrier(α)` returns — none of its up to 50 `barrier_primal` evaluations hits
+    the range check — when `0 ≤ step ≤ 1`, `0 ≤ α` and the exponential slices of the current iterate
+    and of `s + α·ds` pass it (every evaluated point `s + stepᵏ·α·ds` lies between: convexity). -/
+theorem ns_wright_composite_real (cones : List (SolverNS.ConeSt ℝ)) (hc : SolverNS.ConesFull cones)
+    {n m : Nat} (hm : SolverNS.numelAll cones = m) {v lhs : Clarabel.Residuals.Vars ℝ}
+    (hv : Clarabel.Solver.VarsSized n m v) (hl : Clarabel.Solver.VarsSized n m lhs) :
+    (∀ (mu : ℝ) (dual : Bool),
+      (dual = true ∨ ∀ ss, SolverNS.cutE cones v.s "update_scaling s" = .ok ss →
+        SolverNS.ExpSlicesOK cones ss) →
+      ∃ r, SolverNS.scaleCones v cones mu dual = .ok r) ∧
+    (∀ a : ℝ, SolverNS.ExpCandidatesOK cones v.z v.s lhs.z lhs.s a →
+      ∃ b, SolverNS.computeBarrier cones v.z v.s lhs.z lhs.s a = .ok b) ∧
+    (∀ (step a : ℝ) (fuel k : Nat), 0 ≤ step → step ≤ 1 → 0 ≤ a →
+      SolverNS.ExpCandidatesOK cones v.z v.s lhs.z lhs.s 0 →
+      SolverNS.ExpCandidatesOK cones v.z v.s lhs.z lhs.s a →
+      ∃ r, SolverNS.backtrackStepToBarrier step v lhs cones fuel a k = .ok r) := by
+  refine ⟨fun mu dual hf => ?_, fun a hf => ?_, fun step a fuel k h0 h1 ha hf0 hfa => ?_⟩
+  · exact SolverNS.updateScaling_ok_real cones v.s v.z mu dual hc (by rw [hm]; exact hv.s)
+      (by rw [hm]; exact hv.z) hf
+  · exact SolverNS.computeBarrier_ok_real cones v.z v.s lhs.z lhs.s a hc (by rw [hm]; exact hv.z)
+      (by rw [hm]; exact hv.s) (by rw [hm]; exact hl.z) (by rw [hm]; exact hl.s) hf
+  · exact SolverNS.okOr_false_exists
+      (SolverNS.backtrackStepToBarrier_ok_real hc hm hv hl h0 h1 hf0 fuel a k ha hfa)
+
+/-- non-vacuity: on the composite `[exp]` with `z = s = (−1, 1, 1)` and a zero direction the
+hypotheses of (a), (b), (b′) hold for every `α` -/
+example (K : Exp.State ℝ) (a : ℝ) :
+    SolverNS.ExpCandidatesOK [SolverNS.ConeSt.exp K] #[-1, 1, 1] #[-1, 1, 1] #[0, 0, 0] #[0, 0, 0] a :=
+  SolverNS.expCandidatesOK_single K rfl rfl (sv := (-1, 1, 1)) (dsv := (0, 0, 0)) rfl rfl rfl rfl a
+    (SolverNS.exp_feasible_example_seg a)
+
+example (K : Exp.State ℝ) : ∀ ss, SolverNS.cutE [SolverNS.ConeSt.exp K] (#[-1, 1, 1] : Array ℝ)
+    "update_scaling s" = .ok ss → SolverNS.ExpSlicesOK [SolverNS.ConeSt.exp K] ss :=
+  SolverNS.expSlicesOK_single K (sv := (-1, 1, 1)) rfl rfl SolverNS.exp_feasible_example
+
+example (K : Exp.State ℝ) : SolverNS.ConesFull [SolverNS.ConeSt.exp K] := by
+  intro c hc
+  simp only [List.mem_singleton] at hc
+  subst hc
+  trivial
+
+/-! ### the solve-level statements (the interior invariant of Round 7 threaded through `solve()`) -/
+
+/-- [R] `C04.ns_wright_sites_safe_on_reached`: the two `_wright_omega` call sites at every loop state
+a `solve()` REACHES.  On a sized solver state with admissible cone parameters (`ValidCones`:
+`0 < a < 1` for power cones, positive exponents summing to one for generalised power cones), with
+`0 < max_step_fraction < 1`, `T::max_value() > 0`, `0 ≤ linesearch_backtrack_step ≤ 1`: for every loop
+state `Lm` reached from `default_start()` through passes that go on to the next one, the iterate is
+strictly interior (`InteriorN`), (a) `scale_cones` on it returns whatever `μ` and the strategy, and
+(b) `backtrack_step_to_barrier(a0)` returns for the `a0` that `calc_step_length(Combined)` returned,
+whatever the direction and the (consistently sized, same layout) scaled cone list. -/
+theorem ns_wright_sites_safe_on_reached {st : SolverNS.Settings ℝ} (hf0 : 0 < st.maxStepFraction)
+    (hf1 : st.maxStepFraction < 1) (hmv : 0 < st.maxValue) (hb0 : 0 ≤ st.linesearchBacktrackStep)
+    (hb1 : st.linesearchBacktrackStep ≤ 1) {S S0 : SolverNS.SolverSt ℝ} {Lm : SolverNS.LoopSt ℝ}
+    (hS : SolverNS.SizedN S) (hv : Equil.ValidCones (SolverNS.layoutN S))
+    (hds : (SolverNS.resetInfo S).defaultStart st = .ok S0)
+    (hreach : SolverNS.Reach st (SolverNS.initLoopSt S0) Lm) :
+    SolverNS.InteriorN (SolverNS.layoutN S) Lm.S.variables ∧
+    (∀ (mu : ℝ) (dual : Bool), ∃ r, SolverNS.scaleCones Lm.S.variables Lm.S.cones mu dual = .ok r) ∧
+    (∀ (cs : List (SolverNS.ConeSt ℝ)) (d : Clarabel.Residuals.Vars ℝ) (a0 : ℝ),
+      cs.map SolverNS.ConeSt.typ = SolverNS.layoutN S → SolverNS.ConesFull cs →
+      SolverNS.numelAll cs = Lm.S.data.m → Clarabel.Solver.VarsSized Lm.S.data.n Lm.S.data.m d →
+      SolverNS.calcStepLength st.ls Lm.S.variables d cs st.maxValue st.maxStepFraction .combined
+        = .ok a0 →
+      ∀ fuel k, ∃ r, SolverNS.backtrackStepToBarrier st.linesearchBacktrackStep Lm.S.variables d cs
+        fuel a0 k = .ok r) :=
+  SolverNS.wright_sites_safe_on_reached hf0 hf1 hmv hb0 hb1 hS hv hds hreach
+
+/-- [R] `C04.ns_wright_site_unreachable_real`: **over ℝ a `solve()` of the model with nonsymmetric
+cones never stops at `panic!("argument not in supported range")`** (`_wright_omega`).  Hypotheses:
+those of `ns_no_panic` (well-formed input, `n ≥ 1`, `perm` a permutation, `PivotOK`), admissible cone
+parameters of the solver's cone layout (`ValidCones`), `0 < max_step_fraction < 1`,
+`T::max_value() > 0`, `0 ≤ linesearch_backtrack_step ≤ 1` (the defaults: 0.99, f64::MAX, 0.8).
+Proof: the interior invariant of `C01.ns_full_interior_invariant` holds at every REACHED loop state
+(not only on the records of a returned solve), and at an interior iterate both call sites are safe
+(`ns_wright_sites_safe_on_reached`); every other stage is total or stops at the fuel only. -/
+theorem ns_wright_site_unreachable_real {P : Csc ℝ} {q : Array ℝ} {A : Csc ℝ} {b : Array ℝ}
+    {cones : List (ConeT ℝ)} {st : SolverNS.Settings ℝ} {perm : Array Nat}
+    (hin : SolverNS.InputOKN P q A b cones) (hn : 0 < P.n)
+    (hperm : SolverNS.PermForN P q A b cones st perm) (hpiv : Clarabel.Solver.PivotOK st.lin)
+    (hf0 : 0 < st.maxStepFraction) (hf1 : st.maxStepFraction < 1) (hmv : 0 < st.maxValue)
+    (hb0 : 0 ≤ st.linesearchBacktrackStep) (hb1 : st.linesearchBacktrackStep ≤ 1)
+    {S : SolverNS.Solver ℝ} (h : SolverNS.Solver.new P q A b cones st perm = .ok S)
+    (hv : Equil.ValidCones (SolverNS.layoutN S.st)) :
+    S.solve st ≠ .error (.panic "argument not in supported range") := by
+  intro hp
+  have hs := SolverNS.solve_noW hf0 hf1 hmv hb0 hb1 (SolverNS.solverNew_invQ hin hn hperm hpiv h)
+    (SolverNS.SizedN.of_new h) hv
+  have : SolverNS.FuelSite "argument not in supported range" := hs.panic_site hp
+  exact absurd this (by unfold SolverNS.FuelSite; decide)
+
+/-- [R] `C04.ns_no_panic_real`: `ns_no_panic` over ℝ with the first numerical-domain site removed —
+for all well-formed inputs `new` does not panic, the object it returns satisfies the invariant, and
+`solve()` on it returns `.ok r` with the invariant on `r.S` again, or stops at
+`"backtrack_search: fuel"` (the model's fuel for the unbounded `loop` of `backtrack_search`:
+non-termination in the code) — and nothing else. -/
+theorem ns_no_panic_real {P : Csc ℝ} {q : Array ℝ} {A : Csc ℝ} {b : Array ℝ}
+    {cones : List (ConeT ℝ)} {st : SolverNS.Settings ℝ} {perm : Array Nat}
+    (hin : SolverNS.InputOKN P q A b cones) (hn : 0 < P.n)
+    (hperm : SolverNS.PermForN P q A b cones st perm) (hpiv : Clarabel.Solver.PivotOK st.lin)
+    (hf0 : 0 < st.maxStepFraction) (hf1 : st.maxStepFraction < 1) (hmv : 0 < st.maxValue)
+    (hb0 : 0 ≤ st.linesearchBacktrackStep) (hb1 : st.linesearchBacktrackStep ≤ 1) :
+    Clarabel.Solver.NoPanic (SolverNS.Solver.new P q A b cones st perm) ∧
+      ∀ S, SolverNS.Solver.new P q A b cones st perm = .ok S →
+        Equil.ValidCones (SolverNS.layoutN S.st) → SolverNS.SolverInvN S ∧
+        SolverNS.OkOr (fun s => s = "backtrack_search: fuel") (S.solve st)
+          (fun r => SolverNS.SolverInvN r.S) :=
+  ⟨SolverNS.solverNew_noPanicQ hin hn hperm hpiv, fun S h hv =>
+    ⟨SolverNS.solverNew_invQ hin hn hperm hpiv h,
+      SolverNS.solve_noW hf0 hf1 hmv hb0 hb1 (SolverNS.solverNew_invQ hin hn hperm hpiv h)
+        (SolverNS.SizedN.of_new h) hv⟩⟩
+
+/-- non-vacuity of the settings hypotheses (the defaults) and of `ValidCones` on a layout with an
+exponential and a power cone -/
+example : (0 : ℝ) < 0.99 ∧ (0.99 : ℝ) < 1 ∧ (0 : ℝ) ≤ 0.8 ∧ (0.8 : ℝ) ≤ 1 := by norm_num
+
+example : Equil.ValidCones ([.nonneg 1, .exp, .pow (1 / 2)] : List (ConeT ℝ)) := by
+  intro c hc
+  simp only [List.mem_cons, List.not_mem_nil, or_false] at hc
+  rcases hc with rfl | rfl | rfl
+  · trivial
+  · trivial
+  · exact ⟨by norm_num, by norm_num⟩
+
+/-- [R] `C04.ns_solve_keeps_invariant_real` (the second, third, … `solve()`): over ℝ, on EVERY solver
+object satisfying the state invariant, sized and with admissible cone parameters — the ones `new` builds
+and the ones an earlier `solve()` left behind —, `solve()` returns `.ok r` and `r.S` satisfies the same
+three conditions again (same cone layout), or it stops at the fuel of `backtrack_search`; never at
+`_wright_omega`'s range check, never `.err`. -/
+theorem ns_solve_keeps_invariant_real {st : SolverNS.Settings ℝ} (hf0 : 0 < st.maxStepFraction)
+    (hf1 : st.maxStepFraction < 1) (hmv : 0 < st.maxValue) (hb0 : 0 ≤ st.linesearchBacktrackStep)
+    (hb1 : st.linesearchBacktrackStep ≤ 1) {S : SolverNS.Solver ℝ} (h : SolverNS.SolverInvN S)
+    (hS : SolverNS.SizedN S.st) (hv : Equil.ValidCones (SolverNS.layoutN S.st)) :
+    SolverNS.OkOr (fun s => s = "backtrack_search: fuel") (S.solve st)
+      (fun r => SolverNS.SolverInvN r.S ∧ SolverNS.SizedN r.S.st
+        ∧ Equil.ValidCones (SolverNS.layoutN r.S.st)) := by
+  have hs := SolverNS.solve_noW hf0 hf1 hmv hb0 hb1 h hS hv
+  cases hres : S.solve st with
+  | ok r =>
+    rw [hres] at hs
+    obtain ⟨g1, _, g3⟩ := SolverNS.solve_sizedN hS hres
+    exact ⟨hs, g1, by rw [g3]; exact hv⟩
+  | error e =>
+    rw [hres] at hs
+    cases e with
+    | panic site => exact hs
+    | err k => exact hs.elim
+
+end nsreal
 
 end Clarabel.C04
